@@ -16,7 +16,6 @@ SPEC = {
         {'pkg': 'execute', 'src': 'harness/execute/c15_test.go', 'test': 'TestVerif_C15_(observe|accept)_exec', 'fakes': True,
          'sinks': {'C15_obs_exec': 'obse_judge', 'C15_acc_exec': 'acc_judge'}, 'n': {'quick': 400, 'thorough': 20000}},
     ],
-    'known': {'1': 'F30'},
     'rule': 'subj: real getCurseInfoFromCursedSubjects + CurseInfo.NonCursedSourceChains on subject sets of classes none/global/dest/sources/all sources/'
             'near-miss (one bit off the global, destination or a source subject)/high half non-zero and swapped halves/mixed/duplicate request, selectors '
             '0, 2^56, 2^64-1 and the two numbers that make up the global subject; obs_commit: observerImpl.ObserveOffRampNextSeqNums with a scripted '
@@ -31,10 +30,10 @@ SPEC = {
                 'ChainSupport / home chain answers, NextSeqNum and CommitReportsGTETimestamp are oracles (scripted fakes)',
                 'report codec decode results (JSON mock codec of the repository)'],
     'assumptions': ['libocr calls the callbacks one at a time per instance; curse state is whatever the reader returns at each call'],
-    'level_text': 'Proof: 18 Coq theorems — subject encoding injective and never the global subject, a source is cursed iff asked about and its own subject is set, '
+    'level_text': 'Proof: 20 Coq theorems — subject encoding injective and never the global subject, a source is cursed iff asked about and its own subject is set, '
                   'unrelated subjects change nothing; no off-ramp numbers / commit reports observed under global or destination curse or reader failure; a cursed source is '
                   'absent from both observations and every other known source stays; a report with roots / chain reports is never accepted under global, destination or '
-                  'any named-source curse or reader failure, and the curse step refuses nothing else; refutation witness for execute sources outside the known list (F30). '
+                  'any named-source curse or reader failure, and the curse step refuses nothing else; execute observes known sources only (repair of F30; the pre-repair function is refuted by a witness). '
                   'Correspondence: subject decoding, both observations and both acceptance callbacks run against the model on every run, with curse sets changing between calls',
     'level_note': 'Trusted: Coq kernel, hand-written model, differential harness, scripted readers. Statements are per call (the model is stateless; the history classes test that the '
                   'implementation is too). The interval-selection consequence (cursed source absent from outcomes) rests on C02 and is not restated here. No axioms.',
